@@ -52,10 +52,9 @@ package utils
 //@   ensures[C08:upper] real(r0) <= 1.1 * real(backoffTarget(retryCount)) + 2
 
 // ---- entry points used by the agent's main package (contracts carried across the package boundary) ----
-//@ func NewResponseForwarder props(C05,C06,C07)
-//@   requires r != nil
+//@ func NewResponseForwarder props(C01,C05,C06,C07)
+//@   requires r != nil && client != nil
 //@   assigns nothing
-//@   go-opaque NewResponseForwarder$1
 //@   ensures r1 == nil && r0 != nil
 
 // A poll is one GET of the pending path that names this agent's backend id (without it the proxy would treat the call
@@ -386,3 +385,21 @@ package utils
 //@ func RoundTripperWithVMIdentity props(C20,C07)
 //@   go-opaque RoundTripperWithVMIdentity$1
 //@   ensures[C07:transport-kept-or-wrapped] wrapped != nil ==> r0 != nil
+
+// the uploading goroutine of a response forwarder: one upload, to the proxy's response endpoint, labelled with the ids
+// the forwarder was created for, reading from the pipe the serialising goroutine writes to (C01); an upload error is
+// queued once on a channel of capacity one that only this goroutine closes (C07)
+//@ func NewResponseForwarder$1 props(C01,C06,C07)
+//@   at postResponseWithRetries(
+//@   requires client != nil && proxyReader != nil && postErrChan != nil && !closed(postErrChan) && chcap(postErrChan) == 1 && chlen(postErrChan) == 0 && rdPos[box(proxyReader)] >= 0
+//@   ghost posts int = 0
+//@   ghost queued int = 0
+//@   call postResponseWithRetries
+//@     assert[C01:upload-labelled-with-the-forwarders-ids] posts == 0 && arg0 == client && arg1 == proxyHost + "agent/response" && arg2 == backendID && arg3 == requestID && arg4 == box(proxyReader)
+// rely: the error channel is local to NewResponseForwarder; the upload has no access to it and this goroutine is its only closer
+//@     assume postErrChan == old(postErrChan) && !closed(postErrChan) && chlen(postErrChan) == 0 && chcap(postErrChan) == 1 && proxyReader == old(proxyReader)
+//@     do posts = posts + 1
+//@   send postErrChan
+//@     assert[C07:upload-error-queued-once-without-blocking] queued == 0 && posts == 1 && arg1 != nil && chlen(postErrChan) < chcap(postErrChan)
+//@     do queued = queued + 1
+//@   ensures[C01:one-upload-per-forwarder] posts == 1
